@@ -6,6 +6,7 @@ import (
 	"verif/harness/abci"
 	"verif/harness/hx"
 
+	kiratypes "github.com/KiraCore/sekai/types"
 	custodytypes "github.com/KiraCore/sekai/x/custody/types"
 	govtypes "github.com/KiraCore/sekai/x/gov/types"
 	mstypes "github.com/KiraCore/sekai/x/multistaking/types"
@@ -135,9 +136,10 @@ func (w *world) netProps() TxSpec {
 }
 
 func (w *world) execFee() TxSpec {
-	types := []string{"claim-validator", "pause", "unpause", "activate", "upsert-token-alias", "submit-proposal"}
+	types := []string{kiratypes.MsgTypeClaimValidator, kiratypes.MsgTypePause, kiratypes.MsgTypeUnpause, kiratypes.MsgTypeDelegate, kiratypes.MsgTypeUpsertTokenInfo, kiratypes.MsgTypeSubmitProposal,
+		kiratypes.MsgTypeVoteProposal, kiratypes.MsgTypeRegisterIdentityRecords, kiratypes.MsgTypeSetNetworkProperties, kiratypes.MsgTypeCreateRole}
 	t := types[w.r.Intn(len(types))]
-	return tx(0, t, govtypes.NewMsgSetExecutionFee(t, uint64(w.r.Range(0, 500)), uint64(w.r.Range(0, 500)), uint64(w.r.Range(0, 10)), 0, w.acc[0].Addr))
+	return tx(0, t, govtypes.NewMsgSetExecutionFee(t, uint64(w.r.Range(0, 1600)), uint64(w.r.Range(0, 1600)), uint64(w.r.Range(0, 10)), 0, w.acc[0].Addr))
 }
 
 func (w *world) proposal() []TxSpec {
@@ -148,7 +150,7 @@ func (w *world) proposal() []TxSpec {
 	case 1:
 		c = govtypes.NewWhitelistAccountPermissionProposal(w.acc[w.r.Intn(nAcc)].Addr, somePerms[w.r.Intn(len(somePerms))])
 	case 2:
-		c = govtypes.NewSetPoorNetworkMessagesProposal([]string{"set-network-properties", "submit-proposal", "vote-proposal"})
+		c = govtypes.NewSetPoorNetworkMessagesProposal([]string{kiratypes.MsgTypeSetNetworkProperties, kiratypes.MsgTypeSubmitProposal, kiratypes.MsgTypeVoteProposal})
 	case 3:
 		c = govtypes.NewUpsertDataRegistryProposal(fmt.Sprintf("key%d", w.r.Intn(5)), "hash", "ref", "enc", uint64(w.r.Intn(1000)))
 	default:
@@ -486,6 +488,33 @@ func targetedHistories(r *hx.Rng, seed uint64) []*History {
 						CustodyStatuses: &custodytypes.CustodyStatuses{Statuses: map[string]*custodytypes.CustodyStatus{"ukex": {Amount: 7, Time: 0}}}})
 				}},
 			{Req: abci.BlockReq{Dt: 5}, Txs: []TxSpec{tx(1, "a1->a2 100ukex (limited)", banktypes.NewMsgSend(a, w.acc[2].Addr, coins("ukex", 100)))}, SleepMs: 1100},
+		}
+		hs = append(hs, h)
+	}
+	{ // execution fees changed inside a block, then used: off-consensus reads (queries, CheckTx, Simulate on
+		// replica 1; restart on replica 2) between the write and the next use must not matter
+		cfg := baseCfg(seed, 925)
+		w := newWorld(r, cfg)
+		h := &History{Name: "execution-fee-change-then-use", Class: "offconsensus", Cfg: cfg}
+		a0 := w.acc[0].Addr
+		setFee := func(t string, exec, fail uint64) TxSpec {
+			return tx(0, fmt.Sprintf("%s exec %d failure %d", t, exec, fail), govtypes.NewMsgSetExecutionFee(t, exec, fail, 0, 0, a0))
+		}
+		prop := func() TxSpec { return w.proposal()[0] }
+		netp := func() TxSpec {
+			t := w.netProps()
+			for t.Note[:5] == "min 0" {
+				t = w.netProps()
+			}
+			return t
+		}
+		// the transaction fee is 1000ukex: a message whose execution / failure fee exceeds it is refused by the ante handler
+		sp, np := kiratypes.MsgTypeSubmitProposal, kiratypes.MsgTypeSetNetworkProperties
+		h.Blocks = []BlockSpec{
+			{Req: abci.BlockReq{Dt: 5}, Txs: []TxSpec{setFee(sp, 100, 300), setFee(np, 50, 250), prop()}},
+			{Req: abci.BlockReq{Dt: 5}, Txs: []TxSpec{prop(), setFee(sp, 100, 5000), prop(), netp(), setFee(np, 4000, 700), netp(), prop()}},
+			{Req: abci.BlockReq{Dt: 5}, Txs: []TxSpec{prop(), netp(), setFee(sp, 400, 450), prop(), prop(), setFee(np, 10, 20), netp()}},
+			{Req: abci.BlockReq{Dt: 5}, Txs: []TxSpec{netp(), prop(), w.bankSend()}},
 		}
 		hs = append(hs, h)
 	}
